@@ -182,8 +182,12 @@ package text
 //@   ensures  len(b) == 0 ==> r == reMatchesEmpty(re)
 //@   assigns  nothing
 
+//@ -- what a regular expression (given by its source) matches at the start of a text: the length of the leftmost
+//@ -- match, or -1 (regexp semantics itself is not specified: this makes the primitives functions of the bytes)
+//@ abstract func reFindLen(src string, text string) int
 //@ assume func (re *regexp.Regexp) FindIndex(b []byte) (loc []int)
 //@   requires re != nil
+//@   ensures  [what] (loc == nil) == (reFindLen(reSource(re), strof(b)) < 0) && (loc != nil ==> loc[1] - loc[0] == reFindLen(reSource(re), strof(b)))
 //@   ensures  loc != nil ==> len(loc) == 2 && 0 <= loc[0] && loc[0] <= loc[1] && loc[1] <= len(b)
 //@   ensures  loc != nil && reAnchored(re) ==> loc[0] == 0
 //@   ensures  loc != nil && !reMatchesEmpty(re) && len(b) == 0 ==> false
@@ -191,6 +195,7 @@ package text
 
 //@ assume func (re *regexp.Regexp) FindSubmatch(b []byte) (m [][]byte)
 //@   requires re != nil
+//@   ensures  [what] (m == nil) == (reFindLen(reSource(re), strof(b)) < 0) && (m != nil ==> len(m[0]) == reFindLen(reSource(re), strof(b)))
 //@   ensures  m != nil ==> len(m) == 1 + GroupsOf(reSource(re)) && len(m) >= 1 && len(m[0]) <= len(b)
 //@   ensures  m != nil && reAnchored(re) ==> array(m[0]) == array(b) && offset(m[0]) == offset(b)
 //@   assigns  nothing
@@ -210,6 +215,7 @@ package text
 //@   ensures [mismatch] v == nil ==> np == pos
 //@   ensures [span] v != nil ==> int(np) == int(pos) + len(v) && int(np) <= f.offset + f.len && array(v) == array(f.data) && offset(v) == offset(f.data) + cur
 //@   ensures [bound] int(pos) <= int(np) && int(np) <= f.offset + f.len
+//@   ensures [what;C09,C12] (cur >= f.len ==> v == nil) && (cur < f.len ==> (v == nil) == (reFindLen("^(?:" + expr + ")", strof(f.data[cur:])) < 0) && (v != nil ==> len(v) == reFindLen("^(?:" + expr + ")", strof(f.data[cur:]))))
 //@   ensures  wfCache(r)
 //@   assigns  mapcells(r.regexpCache)
 
@@ -220,6 +226,7 @@ package text
 //@   ensures [mismatch] m == nil ==> np == pos
 //@   ensures [span] m != nil ==> len(m) >= 1 && int(np) == int(pos) + len(m[0]) && len(m) == 1 + GroupsOf("^(?:" + expr + ")")
 //@   ensures [bound] int(pos) <= int(np) && int(np) <= f.offset + f.len
+//@   ensures [what;C09,C12] (int(pos) - f.offset >= f.len ==> m == nil) && (int(pos) - f.offset < f.len ==> (m == nil) == (reFindLen("^(?:" + expr + ")", strof(f.data[int(pos)-f.offset:])) < 0) && (m != nil ==> len(m[0]) == reFindLen("^(?:" + expr + ")", strof(f.data[int(pos)-f.offset:]))))
 //@   ensures  wfCache(r)
 //@   assigns  mapcells(r.regexpCache)
 
@@ -367,3 +374,61 @@ package text
 //@   requires p != nil
 //@   ensures  r != nil
 //@   assigns  nothing
+
+//@ -- ------------------------------------------------------------------ placement invariance (C12)
+//@ -- Two readers over the same bytes at different base offsets, and two positions with the same cursor: every
+//@ -- primitive, read through its contract, answers with the same verdict and positions shifted by exactly the
+//@ -- difference of the base offsets. (Lemmas over the postconditions; no code.)
+//@ props C12
+//@ pure func samePlace(r1 *Reader, r2 *Reader, p1 parsley.Pos, p2 parsley.Pos) bool = wfReader(r1) && wfReader(r2) && same(r1.file.data, r2.file.data) && r1.file.len == r2.file.len && inFile(r1.file, p1) && inFile(r2.file, p2) && int(p1) - r1.file.offset == int(p2) - r2.file.offset
+//@ pure func shifted(r1 *Reader, r2 *Reader, a parsley.Pos, b parsley.Pos) bool = int(a) - r1.file.offset == int(b) - r2.file.offset
+
+//@ lemma shiftRemaining(r1 *Reader, r2 *Reader, p1 parsley.Pos, p2 parsley.Pos, n1 int, n2 int, e1 bool, e2 bool)
+//@   requires samePlace(r1, r2, p1, p2)
+//@   requires postof("text.(*Reader).Remaining", r1, p1, n1) && postof("text.(*Reader).Remaining", r2, p2, n2)
+//@   requires postof("text.(*Reader).IsEOF", r1, p1, e1) && postof("text.(*Reader).IsEOF", r2, p2, e2)
+//@   ensures  [remaining;C12] n1 == n2
+//@   ensures  [eof;C12] e1 == e2
+
+//@ lemma shiftReadRune(r1 *Reader, r2 *Reader, p1 parsley.Pos, p2 parsley.Pos, ch rune, np1 parsley.Pos, ok1 bool, np2 parsley.Pos, ok2 bool)
+//@   requires samePlace(r1, r2, p1, p2) && 0 <= ch && ch <= 0x10FFFF
+//@   requires postof("text.(*Reader).ReadRune", r1, p1, ch, np1, ok1) && postof("text.(*Reader).ReadRune", r2, p2, ch, np2, ok2)
+//@   ensures  [verdict;C12] ok1 == ok2
+//@   ensures  [shift;C12] shifted(r1, r2, np1, np2)
+
+//@ lemma shiftMatchString(r1 *Reader, r2 *Reader, p1 parsley.Pos, p2 parsley.Pos, str string, np1 parsley.Pos, ok1 bool, np2 parsley.Pos, ok2 bool)
+//@   requires samePlace(r1, r2, p1, p2) && str != ""
+//@   requires postof("text.(*Reader).MatchString", r1, p1, str, np1, ok1) && postof("text.(*Reader).MatchString", r2, p2, str, np2, ok2)
+//@   ensures  [verdict;C12] ok1 == ok2
+//@   ensures  [shift;C12] shifted(r1, r2, np1, np2)
+
+//@ lemma shiftMatchWord(r1 *Reader, r2 *Reader, p1 parsley.Pos, p2 parsley.Pos, word string, np1 parsley.Pos, ok1 bool, np2 parsley.Pos, ok2 bool)
+//@   requires samePlace(r1, r2, p1, p2) && word != ""
+//@   requires postof("text.(*Reader).MatchWord", r1, p1, word, np1, ok1) && postof("text.(*Reader).MatchWord", r2, p2, word, np2, ok2)
+//@   ensures  [verdict;C12] ok1 == ok2
+//@   ensures  [shift;C12] shifted(r1, r2, np1, np2)
+
+//@ lemma shiftSkipWhitespaces(r1 *Reader, r2 *Reader, p1 parsley.Pos, p2 parsley.Pos, m WsMode, np1 parsley.Pos, err1 parsley.Error, np2 parsley.Pos, err2 parsley.Error)
+//@   requires samePlace(r1, r2, p1, p2)
+//@   requires postof("text.(*Reader).SkipWhitespaces", r1, p1, m, np1, err1) && postof("text.(*Reader).SkipWhitespaces", r2, p2, m, np2, err2)
+//@   ensures  [shift;C12] shifted(r1, r2, np1, np2)
+//@   ensures  [verdict;C12] (err1 == nil) == (err2 == nil)
+//@   ensures  [error-shift;C12] err1 != nil && err2 != nil ==> shifted(r1, r2, err1.Pos(), err2.Pos())
+
+//@ lemma shiftPos(r1 *Reader, r2 *Reader, cur int, q1 parsley.Pos, q2 parsley.Pos)
+//@   requires wfReader(r1) && wfReader(r2) && 0 <= cur && cur <= 1<<60
+//@   requires postof("text.(*Reader).Pos", r1, cur, q1) && postof("text.(*Reader).Pos", r2, cur, q2)
+//@   ensures  [shift;C12] shifted(r1, r2, q1, q2)
+
+//@ lemma shiftReadRegexp(r1 *Reader, r2 *Reader, p1 parsley.Pos, p2 parsley.Pos, expr string, np1 parsley.Pos, v1 []byte, np2 parsley.Pos, v2 []byte)
+//@   requires samePlace(r1, r2, p1, p2) && wfCache(r1) && wfCache(r2) && validPattern(expr)
+//@   requires postof("text.(*Reader).ReadRegexp", r1, p1, expr, np1, v1) && postof("text.(*Reader).ReadRegexp", r2, p2, expr, np2, v2)
+//@   ensures  [verdict;C12] (v1 == nil) == (v2 == nil)
+//@   ensures  [shift;C12] shifted(r1, r2, np1, np2)
+//@   ensures  [value;C12] len(v1) == len(v2)
+
+//@ lemma shiftReadRegexpSubmatch(r1 *Reader, r2 *Reader, p1 parsley.Pos, p2 parsley.Pos, expr string, np1 parsley.Pos, m1 [][]byte, np2 parsley.Pos, m2 [][]byte)
+//@   requires samePlace(r1, r2, p1, p2) && wfCache(r1) && wfCache(r2) && validPattern(expr)
+//@   requires postof("text.(*Reader).ReadRegexpSubmatch", r1, p1, expr, np1, m1) && postof("text.(*Reader).ReadRegexpSubmatch", r2, p2, expr, np2, m2)
+//@   ensures  [verdict;C12] (m1 == nil) == (m2 == nil)
+//@   ensures  [shift;C12] shifted(r1, r2, np1, np2)
